@@ -47,13 +47,20 @@ const (
 	CrashBefore         // the actor dies before the request takes effect
 	CrashAfter          // the request takes effect, then the actor dies before seeing the reply
 	ErrorAfter          // the request takes effect but a 504 is returned
+	// Outcomes below are not part of AllFaults; checks opt in to them.
+	NotServed   // the kind is momentarily not discoverable: NoKindMatchError, request not applied
+	Unavailable // 503, request not applied
+	Missing     // 404 on the request itself (e.g. the API group is being re-registered), request not applied
 )
+
+// DiscoveryFaults are the outcomes of an API server whose discovery / aggregation layer hiccups.
+var DiscoveryFaults = []Outcome{NotServed, Unavailable, Missing}
 
 // AllFaults lists the six injectable outcomes.
 var AllFaults = []Outcome{Conflict, ServerError, Timeout, CrashBefore, CrashAfter, ErrorAfter}
 
 func (o Outcome) String() string {
-	return [...]string{"ok", "conflict", "servererror", "timeout", "crashbefore", "crashafter", "errorafter"}[o]
+	return [...]string{"ok", "conflict", "servererror", "timeout", "crashbefore", "crashafter", "errorafter", "notserved", "unavailable", "missing"}[o]
 }
 
 // Crash is the sentinel panic that kills an actor at an API call.
@@ -549,6 +556,31 @@ func ToMeta(o map[string]any) metav1.ObjectMeta {
 
 // Clone returns an independent copy of the cluster state (objects, history, counters, kind
 // configuration, indexes, admission functions). Hooks, trace and scheduler are not copied.
+// Restore puts the stored objects (and their version history) back to what snap holds; snap is a
+// Clone of w taken earlier. The trace keeps growing; resource versions continue from snap's.
+func (w *World) Restore(snap *World) {
+	snap.mu.Lock()
+	defer snap.mu.Unlock()
+	w.mu.Lock()
+	defer w.mu.Unlock()
+	w.objs = map[Key]map[string]any{}
+	for k, o := range snap.objs {
+		w.objs[k] = runtime.DeepCopyJSON(o)
+	}
+	w.hist = map[Key][]version{}
+	for k, vs := range snap.hist {
+		cp := make([]version, len(vs))
+		for i, v := range vs {
+			cp[i] = version{rv: v.rv}
+			if v.obj != nil {
+				cp[i].obj = runtime.DeepCopyJSON(v.obj)
+			}
+		}
+		w.hist[k] = cp
+	}
+	w.rv, w.uidN, w.clock = snap.rv, snap.uidN, snap.clock
+}
+
 func (w *World) Clone() *World {
 	w.mu.Lock()
 	defer w.mu.Unlock()
